@@ -182,9 +182,35 @@ def rejected_state_case(col):
     col.add(None if bad is None else {"sig": "native::mh_step::rejected_state_not_the_input_state", "what": bad, "input": {"state_entry": "dict of arrays", "proposal": {"params": {"mu": 7.0, "tau": 9.0}, "lp": "-inf"}}})
 
 
+def accepted_liesel_state_case(col):
+    """an ACCEPTED proposal on a Liesel model with a derived quantity that feeds no distribution (pred = 2 mu + 1): the returned state is the state updated with
+    the proposal - every node, nothing outdated (eager and jit)"""
+    import liesel.goose as gs
+    import liesel.model as lsl
+    import tensorflow_probability.substrates.jax.distributions as tfd
+    mu = lsl.param(np.float32(0.0), lsl.Dist(tfd.Normal, loc=0.0, scale=10.0), name="mu")
+    pred = lsl.Var(lsl.Calc(lambda m: 2.0 * m + 1.0, mu), name="pred")
+    y = lsl.obs(np.array([0.9, 1.1], np.float32), lsl.Dist(tfd.Normal, loc=mu, scale=1.0), name="y")
+    model = lsl.GraphBuilder().add(y, pred).build_model()
+    iface = gs.LieselInterface(model)
+    ks, _ = keys_pool()
+    bad = None
+    for how, fn in (("eager", mh_step), ("jit", jax.jit(mh_step, static_argnums=(1,)))):
+        info, new = fn(ks[1], iface, {"mu": jnp.float32(1.0)}, model.state)
+        stale = [k for k, v in new.items() if bool(np.asarray(v.outdated))]
+        if not bool(info.position_moved) or float(new["pred_value"].value) != 3.0 or float(new["mu_value"].value) != 1.0 or stale:
+            bad = f"{how}: proposal mu = 1 (log-ratio > 0, accepted = {bool(info.position_moved)}): returned state has mu = {float(new['mu_value'].value)}, pred = {float(new['pred_value'].value)} (2 mu + 1 = 3), outdated entries {stale}"
+            break
+    col.add(None if bad is None else {"sig": "native::mh_step::accepted_state_not_fully_updated", "what": bad, "input": {"model": "mu, pred = 2 mu + 1 (feeds no distribution), y ~ N(mu, 1)", "proposal": {"mu": 1.0}}})
+
+
 def bounded(tier, seed):
     ks, us = keys_pool()
     col = util.Collector()
+    try:
+        accepted_liesel_state_case(col)
+    except Exception as e:
+        col.add({"sig": f"native::mh_step::exception::{type(e).__name__}", "what": str(e)[:300], "input": {"scenario": "accepted proposal, derived leaf node"}})
     try:
         rejected_state_case(col)
     except Exception as e:
